@@ -4,7 +4,7 @@ use alloc::string::String;
 use core::str::FromStr;
 
 use crate::{
-    iso::IsoDate,
+    iso::{IsoDate, IsoTime},
     options::{ArithmeticOverflow, DisplayCalendar},
     parsers::{FormattableCalendar, FormattableDate, FormattableMonthDay},
     Calendar, MonthCode, TemporalError, TemporalResult, TemporalUnwrap,
@@ -134,6 +134,9 @@ impl FromStr for PlainMonthDay {
         if !calendar.is_iso() {
             return Err(TemporalError::range().with_message("non-ISO calendar not supported."));
         }
+
+        // A time is not part of the value, but it must still be a valid time of the grammar.
+        record.time.map(IsoTime::from_time_record).transpose()?;
 
         let date = record.date;
 
